@@ -13,6 +13,33 @@ open SonicSpec.Mem.Dispatch SonicSpec.Generated
 theorem dispatch_tables_wired : tablesOK Dispatch.avx2Use Dispatch.avx2 Dispatch.sseUse Dispatch.sse = true := by
   decide +kernel
 
+/-- what the boolean checker means, for ANY pair of tables it accepts: every slot one build fills is
+    filled by the other build too, with the symbol of the same name, each from its own package, and the
+    symbol is the one that carries the slot's name -/
+theorem tablesOK_sound (au su : List Name) (a s : Table) (h : tablesOK au a su s = true) :
+    (∀ e ∈ a, e.2.1 = avx2Pkg ∧ slotMatches e.1 e.2.2 = true ∧
+      ∃ f ∈ s, f.1 = e.1 ∧ f.2.2 = e.2.2 ∧ f.2.1 = ssePkg) ∧
+    (∀ f ∈ s, f.2.1 = ssePkg ∧ slotMatches f.1 f.2.2 = true ∧
+      ∃ e ∈ a, e.1 = f.1 ∧ e.2.2 = f.2.2 ∧ e.2.1 = avx2Pkg) := by
+  simp only [tablesOK, tableOK, sameSlots, Bool.and_eq_true, List.all_eq_true, List.any_eq_true,
+    beq_iff_eq] at h
+  obtain ⟨⟨⟨⟨⟨_, ha⟩, _⟩, ⟨⟨_, hs⟩, _⟩⟩, hab, hba⟩, _⟩ := h
+  constructor
+  · intro e he
+    obtain ⟨f, hf, h1, h2⟩ := hab e he
+    exact ⟨(ha e he).1, (ha e he).2, f, hf, h1, h2, (hs f hf).1⟩
+  · intro f hf
+    obtain ⟨e, he, h1, h2⟩ := hba f hf
+    exact ⟨(hs f hf).1, (hs f hf).2, e, he, h1, h2, (ha e he).1⟩
+
+/-- ... and so for the tables read from the source on this run -/
+theorem dispatch_slots_paired :
+    (∀ e ∈ Dispatch.avx2, e.2.1 = avx2Pkg ∧ slotMatches e.1 e.2.2 = true ∧
+      ∃ f ∈ Dispatch.sse, f.1 = e.1 ∧ f.2.2 = e.2.2 ∧ f.2.1 = ssePkg) ∧
+    (∀ f ∈ Dispatch.sse, f.2.1 = ssePkg ∧ slotMatches f.1 f.2.2 = true ∧
+      ∃ e ∈ Dispatch.avx2, e.1 = f.1 ∧ e.2.2 = f.2.2 ∧ e.2.1 = avx2Pkg) :=
+  tablesOK_sound _ _ _ _ dispatch_tables_wired
+
 /-- the checker is not vacuous: the slip is rejected -/
 example : tablesOK [avx2Pkg] [([83, 95, 97], avx2Pkg, [83, 95, 97]), ([83, 95, 98], avx2Pkg, [83, 95, 98])]
     [ssePkg] [([83, 95, 97], ssePkg, [83, 95, 98]), ([83, 95, 98], ssePkg, [83, 95, 98])] = false := by decide
